@@ -30,6 +30,15 @@ func runNetChild(b netBatch, results []netResult) (finished int, died bool, stde
 	in, _ := json.Marshal(b)
 	cmd := exec.Command(os.Args[0], "--extra", "netchild")
 	cmd.Stdin = strings.NewReader(string(in))
+	if b.Mode == "store" {
+		// the node's chunk store lives in a directory of the parent: removed whatever becomes of the child
+		dir, derr := os.MkdirTemp("/var/tmp", "hC33store")
+		if derr != nil {
+			return 0, false, "", derr
+		}
+		defer os.RemoveAll(dir)
+		cmd.Env = append(os.Environ(), "HC33_STORE_DIR="+dir)
+	}
 	var eb strings.Builder
 	cmd.Stderr = &eb
 	stdout, err := cmd.StdoutPipe()
